@@ -109,3 +109,13 @@ Print Assumptions C14_parse_rendered_key.
 Theorem C14_render_mono_dotted : forall k : list cfield, In k coherent_keys -> forall n m : Z, (0 <= n <= m)%Z -> ver_le (dotted (zkey k n)) (dotted (zkey k m)) = true.
 Proof. exact render_mono_dotted. Qed.
 Print Assumptions C14_render_mono_dotted.
+
+(* ---- Proofs.CalverE2E ---- *)
+From Coq Require Import List Bool NArith ZArith Arith.
+From BV Require Import Lib.PyStr Lib.Decimal Lib.Calendar Model.V2 Model.Pep440 Model.Cli Model.Lexid Proofs.DottedFacts Proofs.CalverE2E.
+Import ListNotations.
+(* calver_result_greater :
+   forall (date : Z) (y m : N) (bid b' : list N), (1 <= m <= 12)%N -> all_digits bid = true -> bid <> [] -> bump_bid bid = Some b' -> ver_lt (cv y m bid) (calver_next y m b' date) = true *)
+Theorem C14_calver_result_greater : ltac:(let t := type of calver_result_greater in exact t).
+Proof. exact calver_result_greater. Qed.
+Print Assumptions C14_calver_result_greater.
